@@ -643,3 +643,47 @@ func uniq(a []string) []string {
 	sort.Strings(out)
 	return out
 }
+
+// addReportsChange: in (*watch).update, after watcher.Add succeeded every feasible path
+// returns true. found=false when the anchor (one Add call with a nil test) is missing.
+func addReportsChange(c *Ctx) (ok, found bool, pos string) {
+	up := c.U.Func("cdi", "(*watch).update")
+	if up == nil {
+		return false, false, ""
+	}
+	var adds []ssa.CallInstruction
+	for _, call := range ir.Calls(up) {
+		if f := call.Common().StaticCallee(); f != nil && f.String() == "(*github.com/fsnotify/fsnotify.Watcher).Add" {
+			adds = append(adds, call)
+		}
+	}
+	if len(adds) != 1 {
+		return false, false, c.U.Pos(up.Pos())
+	}
+	aerr := adds[0].Value()
+	ok = true
+	for _, iff := range ir.Ifs(up) {
+		tv, nilSucc, isTest := ir.NilTest(iff)
+		if !isTest || tv != aerr {
+			continue
+		}
+		found = true
+		pos = c.pos(iff)
+		succEdge := ir.Edge{From: iff.Block(), Succ: nilSucc}
+		n := 0
+		ir.EnumPaths(up, &succEdge, false, func(p ir.BlockPath, end ssa.Instruction) {
+			ret, isRet := end.(*ssa.Return)
+			if !isRet || !ir.FeasiblePath(p) {
+				return
+			}
+			n++
+			if b, isB := ir.ConstBool(ir.ResolveOnPath(ir.ReturnResult(ret, 0), p)); !isB || !b {
+				ok = false
+			}
+		})
+		if n == 0 {
+			ok = false
+		}
+	}
+	return ok && found, found, pos
+}
